@@ -1005,6 +1005,18 @@ func failedPrepareReported(c *Case, res *result) (string, string, string) {
 					if explained(c, res, pr.text, pr.start, r.Return) || strings.Contains(r.Err, marker) {
 						continue
 					}
+					// Row(): a failed preparation makes QueryRowContext run the text unprepared on
+					// the pool (fix F6: a *sql.Row cannot carry the error) - the preparer's own
+					// operation does not report it either
+					fellBack := false
+					for _, pe := range res.pool {
+						if pe.Task == r.Task && pe.Kind == "query_row" && pe.SQL == pr.text && pe.Seq >= r.Call && pe.Seq <= r.Return {
+							fellBack = true
+						}
+					}
+					if fellBack {
+						continue
+					}
 					return "failed_prepare_not_reported", fmt.Sprintf("waiter|in_tx=%v|session_mode=%v", r.InTx, c.SessionMode), fmt.Sprintf("task %d's Prepare of %q failed with the injected error %q (events %d..%d); task %d had started to wait for that preparation (%s, event %d) but its operation returned err=%q rows=%q instead of the preparation's error", ev.Task, pr.text, ev.Err, pr.start, ev.Seq, r.Task, w.Point, w.Seq, r.Err, r.Result)
 				}
 			}
